@@ -137,7 +137,7 @@ add(Contract(
 add(Contract(
     "<block_rule>", params={"state": "obj:StateBlock", "startLine": "int", "endLine": "int", "silent": "bool"},
     result="bool", assume_only=True,
-    requires=wf() + [("range", "0 <= startLine and startLine < endLine and endLine <= state.lineMax")],
+    requires=wf() + RULE_RANGE,
     modifies=["state.line", "state.parentType", "state.tight"],
     ensures=[("silent-pure", "implies(silent, state.line == old(state.line) and state.tight == old(state.tight))"),
              ("fail-pure", "implies(not result, state.line == old(state.line))"),
@@ -151,9 +151,23 @@ EOFPRE = ("eof-line-not-read-past", "forall(l, begin, end, implies((l + 1 < end 
                                     "indent <= 0 or self.bMarks[l] + self.tShift[l] < self.eMarks[l]))")
 add(Contract(
     SB + "getLines", params={"self": "obj:StateBlock", "begin": "int", "end": "int", "indent": "int", "keepLastLF": "bool"},
-    result="str", ghost={"result_fun": "GetLines"}, props=["C01"],
-    requires=wf("self") + [("begin", "0 <= begin"), ("end", "end <= len(self.bMarks) - 1"), EOFPRE],
+    result="str", ghost={"result_fun": "GetLines"}, props=["C01", "C08"],
+    requires=wf("self") + [("begin", "0 <= begin"), ("end", "end <= len(self.bMarks) - 1"), EOFPRE,
+                           # a negative indent would make getLines *add* blanks that are not in the source (C08); no caller passes one
+                           ("indent-nonneg", "indent >= 0")],
     ensures=[],
+    # C08, the mechanism itself: what is stored for each line is the source text from `first` - a position inside the
+    # line's indentation / container prefix - to the line end (plus its LF), preceded only by the blanks that stand for the
+    # unconsumed columns of a partially consumed tab (at most 3).  The final "".join is the built-in's.
+    at=[("store[]:queue@0", "padded-piece-is-source-text-after-a-partial-tab",
+         "index == line - begin and 0 < lineIndent - indent and lineIndent - indent <= 3 and self.bMarks[line] < first and self.src[first - 1] == '\\t' "
+         "and first <= min(last, len(self.src)) and len(value) == (lineIndent - indent) + (min(last, len(self.src)) - first) "
+         "and forall(k, 0, lineIndent - indent, value[k] == ' ') and forall(k, 0, min(last, len(self.src)) - first, value[lineIndent - indent + k] == self.src[first + k])", ["C08"]),
+        ("store[]:queue@1", "plain-piece-is-source-text",
+         "index == line - begin and first <= min(last, len(self.src)) and len(value) == min(last, len(self.src)) - first "
+         "and forall(k, 0, min(last, len(self.src)) - first, value[k] == self.src[first + k])", ["C08"]),
+        ("store[]:queue", "piece-starts-inside-the-indentation", "self.bMarks[line] <= first and first <= self.bMarks[line] + self.tShift[line] "
+                                                                 "and (last == self.eMarks[line] + 1 or last == self.eMarks[line])", ["C08"])],
     loops={0: {"types": {"lineIndent": "int", "lineStart": "int", "first": "int", "last": "int", "ch": "char"},
                "inv": [("line", "begin <= line and line <= end"), ("i", "i == line - begin + 1"), ("qlen", "len(queue) == end - begin")],
                "dec": "end - line"},
@@ -162,6 +176,7 @@ add(Contract(
                        ("last", "last == self.eMarks[line] + 1 or last == self.eMarks[line]"),
                        ("last-lf", "implies(last == self.eMarks[line] + 1, line + 1 < end or keepLastLF)"),
                        ("line", "begin <= line and line < end"), ("start", "lineStart == self.bMarks[line]"), ("indent", "lineIndent >= 0"),
+                       ("overshoot-only-by-a-tab", "lineIndent <= indent + 3 and implies(lineIndent > indent, first > self.bMarks[line] and self.src[first - 1] == '\\t')"),
                        ("i", "i == line - begin + 1"), ("qlen", "len(queue) == end - begin")],
                "dec": "last - first"}},
     notes="content of the result (C08) is summarised by the uninterpreted string function GetLines(begin, end, indent, keepLastLF)",
@@ -322,7 +337,7 @@ REGISTRY["<block_rule>"].ensures.append(("level", "state.level == old(state.leve
 REGISTRY["markdown_it.ruler.Ruler.getRules"].ensures.append(("fallback-last", "len(result) >= 1 and AlwaysMatches(result[len(result) - 1])"))
 add(Contract(
     PB + "tokenize", params={"self": "obj:ParserBlock", "state": "obj:StateBlock", "startLine": "int", "endLine": "int"}, props=["C01", "C20", "C03"],
-    requires=wf() + [("range", "0 <= startLine and endLine <= state.lineMax"), ("nest", "state.md.options.maxNesting >= 1")],
+    requires=wf() + [("range", "0 <= startLine and endLine <= state.lineMax"), ("nest", "state.md.options.maxNesting >= 1"), ("blk-nonneg", "state.blkIndent >= 0")],
     modifies=["state.line", "state.tokens", "state.tight", "state.parentType"],
     at=[("call:rule", "rule-under-nesting-cap", "state.level < state.md.options.maxNesting", ["C20", "C01"]),
         ("call:rule", "rule-on-nonempty-line", "line < endLine and state.bMarks[line] + state.tShift[line] < state.eMarks[line] and state.sCount[line] >= state.blkIndent", ["C03", "C01"])],
